@@ -2,6 +2,8 @@ package an
 
 import (
 	"fmt"
+	"go/token"
+	"go/types"
 	"strings"
 
 	"golang.org/x/tools/go/ssa"
@@ -57,6 +59,8 @@ func e5Obligations(p *Prog, r *Report, rule string) {
 }
 
 func runC17(p *Prog, r *Report) {
+	recvOwnsMemory(p, r, "C17.12/recv-owns-memory")
+	r.Floor("C17.12/recv-owns-memory", "c17.recv_buffer_installs", 2)
 	{
 		// REQ's blocking SendMsg parks the message in c.sendMsg; the scheduler takes it from
 		// there (and from then on transmits, retains and frees it).  Whether the call failed
@@ -257,4 +261,91 @@ func ownershipIn(p *Prog, r *Report, R string, rels ...string) {
 	if n == 0 {
 		r.OK(R, strings.Join(rels, ","), "-", "no ownership issue")
 	}
+}
+
+// recvOwnsMemory (C17.12): the Body and Header a transport's Recv installs in the message it
+// returns are memory of that message: made for it (NewMessage, make, append to a fresh slice) or
+// returned by a read call that allocates per call.  A window into something the connection keeps
+// and reuses — a slice field of the pipe, bytes.Buffer.Bytes/Next, bufio's Peek/ReadSlice or a
+// Scanner's Bytes on a field of the pipe — is overwritten by the next frame while the protocol
+// (or the application) still holds the earlier message.
+var windowMethods = map[string]bool{"Bytes": true, "Next": true, "Peek": true, "ReadSlice": true, "Bytes#Scanner": true, "AvailableBuffer": true}
+
+func recvOwnsMemory(p *Prog, r *Report, R string) {
+	r.Describe(R, "the Body and Header of a message returned by a transport's Recv are backed by memory made for that message, never by a window into a buffer the connection keeps (a slice field of the pipe, or bytes.Buffer.Bytes/Next, bufio Peek/ReadSlice on one of its fields): the next frame would overwrite a message the protocol still holds")
+	n := 0
+	for _, fn := range p.Funcs {
+		rel, _ := p.FuncRel(fn)
+		if !strings.HasPrefix(rel, "transport") || fn.Name() != "Recv" || fn.Signature.Recv() == nil {
+			continue
+		}
+		EachInstr(fn, func(in ssa.Instruction) {
+			st, ok := in.(*ssa.Store)
+			if !ok {
+				return
+			}
+			fa, ok := st.Addr.(*ssa.FieldAddr)
+			if !ok {
+				return
+			}
+			fv, owner := fieldAddrVar(fa)
+			if fv == nil || owner == nil || owner.Obj().Name() != "Message" || (fv.Name() != "Body" && fv.Name() != "Header") {
+				return
+			}
+			n++
+			key := p.FuncName(fn) + "/" + fv.Name()
+			why := ""
+			seen := map[ssa.Value]bool{}
+			var walk func(v ssa.Value, d int)
+			walk = func(v ssa.Value, d int) {
+				if v == nil || seen[v] || d > 10 || why != "" {
+					return
+				}
+				seen[v] = true
+				switch x := v.(type) {
+				case *ssa.Slice:
+					walk(x.X, d+1)
+				case *ssa.Phi:
+					for _, e := range x.Edges {
+						walk(e, d+1)
+					}
+				case *ssa.ChangeType:
+					walk(x.X, d+1)
+				case *ssa.Extract:
+					walk(x.Tuple, d+1)
+				case *ssa.UnOp:
+					if x.Op == token.MUL {
+						if fa2, ok := x.X.(*ssa.FieldAddr); ok {
+							if fv2, ow2 := fieldAddrVar(fa2); fv2 != nil && ow2 != nil && ow2.Obj().Name() != "Message" {
+								if _, isSl := fv2.Type().Underlying().(*types.Slice); isSl {
+									why = "it is (a window into) the slice field " + fieldKey(fv2, ow2)
+								}
+							}
+						}
+					}
+				case *ssa.Call:
+					c := &x.Call
+					if IsBuiltin(c, "append") && len(c.Args) > 0 {
+						walk(c.Args[0], d+1)
+						return
+					}
+					if sc := c.StaticCallee(); sc != nil && sc.Signature.Recv() != nil && len(c.Args) > 0 && windowMethods[sc.Name()] {
+						pk := pkgPathOf(sc)
+						if pk == "bytes" || pk == "bufio" {
+							if _, onField := c.Args[0].(*ssa.FieldAddr); onField {
+								why = "it is the window " + pk + "." + recvTypeName(sc) + "." + sc.Name() + "() returns into " + Desc(c.Args[0])
+							} else if u, ok := c.Args[0].(*ssa.UnOp); ok {
+								if _, onField := u.X.(*ssa.FieldAddr); onField {
+									why = "it is the window " + pk + "." + recvTypeName(sc) + "." + sc.Name() + "() returns into " + Desc(u)
+								}
+							}
+						}
+					}
+				}
+			}
+			walk(st.Val, 0)
+			r.Check(why == "", R, key, p.InstrPos(in), "memory of the message", "the "+fv.Name()+" of the received message is not memory of its own: "+why+"; the next frame on this connection overwrites the message while its receiver still holds it")
+		})
+	}
+	r.Count("c17.recv_buffer_installs", n)
 }
